@@ -85,3 +85,15 @@ Definition mon_accept (inp obs : list Z) : bool :=
   | 1 :: pl :: n :: L :: P :: nf :: r => wf_info_b (rd_files (Z.to_nat nf) r) pl n L
   | _ => false
   end.
+
+(* kind 602: lists / dictionaries nested n deep under an unknown key.  The decoder recurses once per level,
+   so the depth of every accepted document must be bounded: 64 levels, counted from the outermost
+   dictionary.  where 0: a key of the torrent file (the value starts at level 2) | 1: a key of the info
+   dictionary inside the torrent file (level 3) | 2: NewInfo on the info bytes (level 2). *)
+Definition max_nesting : Z := 64.
+Definition nesting_levels (where_ n : Z) : Z := (if where_ =? 1 then 2 else 1) + n.
+Definition run_nesting (inp : list Z) : list Z :=
+  match inp with
+  | [where_; n; _] => [b2z (nesting_levels where_ n <=? max_nesting)]
+  | _ => [-779]
+  end.
